@@ -11,8 +11,8 @@
    reader with a writer; `vals_okb` says the field values are values of their Rust types (and inside
    the enum / bitflags sets the reader keeps). *)
 From AV Require Import Base.Prelude Gen.ReaderPrims Model.Reader Model.ReaderExt Proofs.ReaderProofs
-  Model.Layout Gen.TableLayouts Model.Tables Model.Cff
-  Proofs.LayoutProofs Proofs.RecordProofs Proofs.TableProofs Proofs.ArrayTableProofs Proofs.CffProofs
+  Model.TableLayout Gen.TableLayouts Model.Tables Model.Cff
+  Proofs.TableLayoutProofs Proofs.RecordProofs Proofs.TableProofs Proofs.ArrayTableProofs Proofs.CffProofs
   Proofs.RefusalProofs Proofs.NameProofs Proofs.GlyphProofs.
 Open Scope Z_scope.
 
